@@ -1,6 +1,8 @@
 import PyttbModel.Core.Codec
+import PyttbModel.Driver.C01
 import PyttbModel.Core.XRat
 import PyttbModel.Ops.SparseElem
+import PyttbModel.Ops.SparseSquash
 import PyttbModel.Ops.Kruskal
 open Lean Pyttb Pyttb.Codec Pyttb.SpElem
 namespace Pyttb.Driver
@@ -123,6 +125,17 @@ def ops03 : List (String × Op) := [
     let vals ← field j "vals" >>= asRats
     let shape ← field j "shape" >>= asNats
     .ok (exceptJ sparseJ (SpElem.mk? subs vals shape))),
+  ("sp_squash", fun j => do
+    let A ← field j "A" >>= asSparse
+    .ok (exceptJ (fun (p : Sparse Rat × List (List Nat)) =>
+      Json.mkObj [("sp", sparseJ p.1), ("maps", natMatJ p.2)]) (SpElem.squash A))),
+  ("spm_ctor", fun j => do
+    let subs ← field j "subs" >>= asNatMat
+    let vals ← field j "vals" >>= asRats
+    let r ← field j "rdims" >>= asNats
+    let c ← field j "cdims" >>= asNats
+    let ts ← field j "tshape" >>= asNats
+    .ok (exceptJ sptenmatJ (Sptenmat.mkCopy subs vals r c ts))),
   ("sp_wf", fun j => do
     let A ← field j "A" >>= asSparse
     .ok (Json.mkObj [("wf", Json.bool A.wfb), ("nnz", toJson A.nnz)]))
